@@ -134,12 +134,23 @@ def corpus():
             out.append(dict(kind=kind, cap=2, nworkers=2, nreq=2, followups=1, exit_busy=True, chooser=['random', 0.3], seed=seed,
                             callers=[dict(kind='call', reqs=[dict(r=0, delay=0, dur=60, fail=False, timeout=0.5, bp=False)]),
                                      dict(kind='call', reqs=[dict(r=1, delay=0, dur=0, fail=False, timeout=F, bp=False)])]))
+        for seed in (4, 5, 6):
+            # the same with capacity 1: an entry that survives leaving the server fills the whole next session
+            out.append(dict(kind=kind, cap=1, nworkers=2, nreq=1, followups=1, exit_busy=True, chooser=['random', 0.3], seed=seed,
+                            callers=[dict(kind='call', reqs=[dict(r=0, delay=0, dur=60, fail=False, timeout=0.5, bp=False)])]))
         for mode in ('close', 'throw', 'cancel', 'leave'):
             items = [dict(r=i, dur=1, fail=False) for i in range(10)]
             out.append(dict(kind=kind, cap=1, nworkers=1, nreq=10, followups=1, exit_busy=False, chooser=['random', 0.0], seed=7,
                             callers=[dict(kind='stream', items=items, rexc=True, stop_after=1, stop_mode=mode)]))
             out.append(dict(kind=kind, cap=2, nworkers=2, nreq=10, followups=1, exit_busy=False, chooser=['sticky', 0.2, 0.0], seed=8,
                             callers=[dict(kind='stream', items=items, rexc=False, stop_after=2, stop_mode=mode)]))
+    # (AsyncServer) the shutdown is cancelled at the only point where `__aexit__` awaits (a result was gathered while the
+    # server was stopping, another request is orphaned): the ledger must be clean in the next session (seeded C06-10)
+    for d1, ch, seed in ((2, ['random', 0.3], 1), (2, ['random', 0.3], 5), (2, ['random', 0.3], 7), (3, ['random', 0.1], 1), (3, ['random', 0.1], 5)):
+        out.append(dict(kind='async', cap=3, nworkers=3, nreq=3, followups=1, exit_busy=True, exit_cancel=True, chooser=ch, seed=seed,
+                        callers=[dict(kind='call', reqs=[dict(r=0, delay=0, dur=60, fail=False, timeout=0.5, bp=False)]),
+                                 dict(kind='call', reqs=[dict(r=1, delay=0, dur=d1, fail=False, timeout=0.5, bp=False)]),
+                                 dict(kind='call', reqs=[dict(r=2, delay=0, dur=0, fail=False, timeout=F, bp=False)])]))
     # a stream left open with a slow source, the server entered again before the stream is closed (seeded C07-8)
     for cap_, ch, seed in ((1, ['random', 0.0], 22), (1, ['random', 0.0], 25), (1, ['sticky', 0.2, 0.0], 1), (1, ['sticky', 0.2, 0.0], 2),
                            (2, ['random', 0.0], 0), (2, ['sticky', 0.2, 0.0], 32), (3, ['random', 0.0], 0), (3, ['random', 0.0], 1)):
@@ -467,7 +478,15 @@ def run_case(case):
             if exit_busy:
                 wake.stop(srv)
                 try:
-                    await srv.__aexit__(None, None, None)
+                    if case.get('exit_cancel', case['seed'] % 2 == 1):
+                        # the shutdown runs under a deadline that passes while the server is stopping: the task is
+                        # cancelled at the only point where `__aexit__` awaits; the ledger must be clean all the same
+                        try:
+                            await asyncio.wait_for(srv.__aexit__(None, None, None), 0.005)
+                        except (asyncio.TimeoutError, TimeoutError):
+                            pass
+                    else:
+                        await srv.__aexit__(None, None, None)
                     await srv.__aenter__()
                 except BaseException as e:  # noqa
                     if isinstance(e, detsched.Abort):
